@@ -48,7 +48,7 @@ def _exits(stmts):
 
 
 @rule('F13', 'dispatch-order: in a chain of isinstance tests on one value a class is tested before any of its base classes '
-             '(an AnsiStr is a str: testing str first makes the AnsiStr arm unreachable)', floor=3)
+             '(an AnsiStr is a str: testing str first makes the AnsiStr arm unreachable)', floor=2)
 def F13(m, R):
     par = _class_parents(m)
     for f in m.funcs.values():
@@ -907,3 +907,52 @@ def P35(m, R):
         R.undecided(f, g, 'emptiness test %s before the conversion: what it rejects is not decided' % short(g.test), construct=cons)
     else:
         R.ok(f, g, 'the emptiness test is applied to the converted text', construct=cons)
+
+
+# ----------------------------------------------------------------------------------------------------------------------
+@rule('P36', 'spec-always-parsed: to_str returns early only when no format_spec is given -- a non-empty spec always goes through the library\'s own grammar '
+             '(_apply_string_format), never through str\'s', floor=1)
+def P36(m, R):
+    f = m.fn('AnsiString.to_str')
+    spec = f.own_params()[0]
+    from ..finite import eval_guard, flag_valuation
+    from .P_tostr import _tostr_parts
+    try:
+        _f, loop, *_rest = _tostr_parts(m)
+    except Exception:
+        loop = next((n for n in f.body if isinstance(n, ast.For)), None)
+    if loop is None:
+        raise AnalysisError('anchor vanished: rendering loop of to_str')
+    pre = []
+    for st in f.body:
+        if st is loop:
+            break
+        pre.append(st)
+    n_ret = 0
+    for st in pre:
+        for r in ast.walk(st):
+            if not isinstance(r, ast.Return):
+                continue
+            n_ret += 1
+            conds = []
+            ch, par = r, getattr(r, '_parent', None)
+            while par is not None and par is not f.node:
+                if isinstance(par, ast.If):
+                    conds.append((par.test, any(ch is b_ for b_ in par.body)))
+                ch, par = par, getattr(par, '_parent', None)
+            # can the return be reached with a non-empty spec?
+            val = flag_valuation({spec: True}, {"':' in %s" % spec: None})
+            possible = True
+            for t_, pol in conds:
+                v_ = eval_guard(t_, val)
+                if v_ is not None and v_ != pol:
+                    possible = False
+            cons = 'early return L-%s' % re.sub(r'\s+', ' ', norm(r.value))[:40]
+            if possible:
+                R.viol(f, r, 'to_str returns %s before the spec is applied, also for a non-empty format_spec: the spec "[fill][+|-][<|>|^][width]" is the library\'s own '
+                             'grammar -- "*+<8" / " ->8" are errors for str.format, "08" zero-pads there, ".1" and "8s" are accepted there and must raise ValueError here'
+                       % short(r.value), construct=cons)
+            else:
+                R.ok(f, r, 'reached only without a format_spec', construct=cons)
+    if not n_ret:
+        R.ok(f, f.node, 'no early return before the rendering loop', construct='early return')
